@@ -115,6 +115,9 @@ func (fr *Frame) knownPure(s *State, f *types.Func, recv *Val, args []*Val) ([]*
 		// Decoding is a deterministic function of the input bytes: the decoded value is json_<T>(data), the
 		// error json_err_<T>(data). Slices inside the decoded value denote some existing backing array whose
 		// content is arbitrary (two decodings of the same bytes see the same content while the heap is unchanged).
+		if args[1].Dyn != nil {
+			args[1] = args[1].Dyn
+		}
 		if pt, ok := args[1].T.Underlying().(*types.Pointer); ok {
 			hn, hs := fr.eng.ptrHeap(pt.Elem())
 			dec, errf := fr.eng.jsonFuncs(pt.Elem())
